@@ -18,7 +18,7 @@ pub struct C18;
 type StepOut = Vec<(String, Vec<Vec<u64>>)>;
 
 enum Job {
-    Construct(Cfg, usize),
+    Construct(Cfg, usize, bool),
     Step(Box<Runner<f64>>, Vec<Op>),
     Quit,
 }
@@ -41,18 +41,19 @@ fn exec(r: &mut Runner<f64>, ops: &[Op]) -> StepOut {
     out
 }
 
-fn build(cfg: &Cfg, instance: usize) -> Result<Box<Runner<f64>>, String> {
+fn build(cfg: &Cfg, instance: usize, hostile: bool) -> Result<Box<Runner<f64>>, String> {
     // every instance gets its own signal so that leaked data is visible
-    let mut r = Runner::<f64>::new(cfg, Signal::NoiseCh(7 * instance))?;
+    let signal = if hostile { Signal::NoiseSubnormalCh(7 * instance) } else { Signal::NoiseCh(7 * instance) };
+    let mut r = Runner::<f64>::new(cfg, signal)?;
     r.keep_out = true;
     Ok(Box::new(r))
 }
 
-fn solo(cfg: &Cfg, instance: usize, partial: bool) -> Result<Vec<StepOut>, String> {
+fn solo(cfg: &Cfg, instance: usize, partial: bool, hostile: bool) -> Result<Vec<StepOut>, String> {
     crate::run::install_panic_hook();
-    let mut r = build(cfg, instance)?;
+    let mut r = build(cfg, instance, hostile)?;
     let mut outs = Vec::new();
-    for ops in script(cfg, partial) {
+    for ops in script(cfg, partial, hostile) {
         outs.push(exec(&mut r, &ops));
     }
     Ok(outs)
@@ -62,7 +63,7 @@ fn solo(cfg: &Cfg, instance: usize, partial: bool) -> Result<Vec<StepOut>, Strin
 pub fn reference_main(mix: usize, instance: usize) -> i32 {
     let Some(m) = mixes().into_iter().nth(mix) else { return 2 };
     let Some(cfg) = m.cfgs.get(instance) else { return 2 };
-    match solo(cfg, instance, m.partial) {
+    match solo(cfg, instance, m.partial, m.hostile) {
         Ok(outs) => {
             println!("{}", serde_json::to_string(&outs).unwrap());
             0
@@ -90,8 +91,8 @@ fn worker_loop(rx: Receiver<Job>, tx: Sender<Done>) {
     crate::run::install_panic_hook();
     while let Ok(job) = rx.recv() {
         match job {
-            Job::Construct(cfg, inst) => {
-                let _ = tx.send(Done::Built(build(&cfg, inst)));
+            Job::Construct(cfg, inst, hostile) => {
+                let _ = tx.send(Done::Built(build(&cfg, inst, hostile)));
             }
             Job::Step(mut r, ops) => {
                 let o = exec(&mut r, &ops);
@@ -108,10 +109,18 @@ struct Mix {
     cfgs: Vec<Cfg>,
     /// end-of-stream scripts: `P PP(5)` then `PP(-)` (partial call with 5 frames, then a flush)
     partial: bool,
+    /// every instance runs on a subnormal-level signal and the asynchronous ones make a
+    /// rejected call (output buffer one frame short) between their first two calls: error
+    /// paths that leave something behind on the thread (floating-point mode, scratch state)
+    hostile: bool,
 }
 
-fn script(cfg: &Cfg, partial: bool) -> Vec<Vec<Op>> {
+fn script(cfg: &Cfg, partial: bool, hostile: bool) -> Vec<Vec<Op>> {
     // step 0 is the construction
+    if hostile {
+        use crate::ops::Bad;
+        return vec![vec![Op::P, Op::Bad(Bad::OutShort(0, 1)), Op::P], vec![Op::Bad(Bad::InShort(0, 1)), Op::P]];
+    }
     if partial {
         return vec![vec![Op::P, Op::PP(Some(5))], vec![Op::PP(None)]];
     }
@@ -133,52 +142,60 @@ fn mixes() -> Vec<Mix> {
     let xo = Cfg::fft(Kind::XO, 2, 3, 48, 2).with_channels(2);
     let xx = Cfg::fft(Kind::XX, 2, 3, 16, 1).with_channels(2);
     let mut v = vec![
-        Mix { partial: false, name: "XI+XI equal fft sizes".to_string(), cfgs: vec![xi.clone(), xi.clone()] },
-        Mix { partial: false, name: "XO+XX equal fft sizes".to_string(), cfgs: vec![xo.clone(), xx.clone()] },
-        Mix { partial: false, name: "SI+SI identical tables".to_string(), cfgs: vec![si.clone(), si.clone()] },
-        Mix { partial: false, name: "SO+FI".to_string(), cfgs: vec![so.clone(), fi.clone()] },
-        Mix { partial: false, name: "SI+FO+XI".to_string(), cfgs: vec![si.clone(), fo.clone(), xi.clone()] },
-        Mix { partial: false, name: "XX+XI+XO equal fft sizes".to_string(), cfgs: vec![xx, xi.clone(), xo] },
+        Mix { hostile: false, partial: false, name: "XI+XI equal fft sizes".to_string(), cfgs: vec![xi.clone(), xi.clone()] },
+        Mix { hostile: false, partial: false, name: "XO+XX equal fft sizes".to_string(), cfgs: vec![xo.clone(), xx.clone()] },
+        Mix { hostile: false, partial: false, name: "SI+SI identical tables".to_string(), cfgs: vec![si.clone(), si.clone()] },
+        Mix { hostile: false, partial: false, name: "SO+FI".to_string(), cfgs: vec![so.clone(), fi.clone()] },
+        Mix { hostile: false, partial: false, name: "SI+FO+XI".to_string(), cfgs: vec![si.clone(), fo.clone(), xi.clone()] },
+        Mix { hostile: false, partial: false, name: "XX+XI+XO equal fft sizes".to_string(), cfgs: vec![xx, xi.clone(), xo] },
         // equal input block, different output block (a cache keyed too coarsely would collide)
-        Mix { partial: false, name: "XX 3->2 + XX 3->1 same input block".to_string(), cfgs: vec![Cfg::fft(Kind::XX, 3, 2, 24, 1).with_channels(2), Cfg::fft(Kind::XX, 3, 1, 24, 1).with_channels(2)] },
-        Mix { partial: false, name: "XI 2->3 + XX 2->1 same input block".to_string(), cfgs: vec![xi, Cfg::fft(Kind::XX, 2, 1, 16, 1).with_channels(2)] },
+        Mix { hostile: false, partial: false, name: "XX 3->2 + XX 3->1 same input block".to_string(), cfgs: vec![Cfg::fft(Kind::XX, 3, 2, 24, 1).with_channels(2), Cfg::fft(Kind::XX, 3, 1, 24, 1).with_channels(2)] },
+        Mix { hostile: false, partial: false, name: "XI 2->3 + XX 2->1 same input block".to_string(), cfgs: vec![xi, Cfg::fft(Kind::XX, 2, 1, 16, 1).with_channels(2)] },
         // instances that carry saved frames from call to call (chunk not a multiple of the block)
-        Mix { partial: false, name: "XI+XI with saved input frames".to_string(), cfgs: vec![Cfg::fft(Kind::XI, 3, 2, 16, 1).with_channels(2), Cfg::fft(Kind::XI, 3, 2, 16, 1).with_channels(2)] },
-        Mix { partial: false, name: "XO+XO with saved output frames".to_string(), cfgs: vec![Cfg::fft(Kind::XO, 2, 3, 10, 1).with_channels(2), Cfg::fft(Kind::XO, 2, 3, 10, 1).with_channels(2)] },
-        Mix { partial: false, name: "FO+FO identical".to_string(), cfgs: vec![fo.clone(), fo.clone()] },
+        Mix { hostile: false, partial: false, name: "XI+XI with saved input frames".to_string(), cfgs: vec![Cfg::fft(Kind::XI, 3, 2, 16, 1).with_channels(2), Cfg::fft(Kind::XI, 3, 2, 16, 1).with_channels(2)] },
+        Mix { hostile: false, partial: false, name: "XO+XO with saved output frames".to_string(), cfgs: vec![Cfg::fft(Kind::XO, 2, 3, 10, 1).with_channels(2), Cfg::fft(Kind::XO, 2, 3, 10, 1).with_channels(2)] },
+        Mix { hostile: false, partial: false, name: "FO+FO identical".to_string(), cfgs: vec![fo.clone(), fo.clone()] },
         // identical sinc table sizes, different cutoff / window
-        Mix { partial: false, name: "SI+SI same table size different filter".to_string(), cfgs: vec![si.clone(), { let mut c = si.clone(); c.ratio = 0.8; c.window = rubato::WindowFunction::Hann; c }] },
+        Mix { hostile: false, partial: false, name: "SI+SI same table size different filter".to_string(), cfgs: vec![si.clone(), { let mut c = si.clone(); c.ratio = 0.8; c.window = rubato::WindowFunction::Hann; c }] },
         // same oversampling factor, different interpolation order (per-thread tables keyed by the factor only)
-        Mix { partial: false, name: "SI Cubic + SI Quadratic same oversampling".to_string(), cfgs: vec![si.clone(), { let mut c = si.clone(); c.interp = Interp::Quadratic; c }] },
-        Mix { partial: false, name: "SO Quadratic + SI Linear + SO Cubic same oversampling".to_string(), cfgs: vec![{ let mut c = so.clone(); c.interp = Interp::Quadratic; c }, { let mut c = si.clone(); c.interp = Interp::Linear; c }, so.clone()] },
-        Mix { partial: false, name: "FI Cubic + FI Septic".to_string(), cfgs: vec![fi.clone(), { let mut c = fi.clone(); c.degree = Degree::Septic; c }] },
+        Mix { hostile: false, partial: false, name: "SI Cubic + SI Quadratic same oversampling".to_string(), cfgs: vec![si.clone(), { let mut c = si.clone(); c.interp = Interp::Quadratic; c }] },
+        Mix { hostile: false, partial: false, name: "SO Quadratic + SI Linear + SO Cubic same oversampling".to_string(), cfgs: vec![{ let mut c = so.clone(); c.interp = Interp::Quadratic; c }, { let mut c = si.clone(); c.interp = Interp::Linear; c }, so.clone()] },
+        Mix { hostile: false, partial: false, name: "FI Cubic + FI Septic".to_string(), cfgs: vec![fi.clone(), { let mut c = fi.clone(); c.degree = Degree::Septic; c }] },
         // large tables whose lengths divide each other (a shared table or window served by striding)
-        Mix { partial: false, name: "SI 192x256 + SI 64x256 taps x oversampling".to_string(), cfgs: vec![
+        Mix { hostile: false, partial: false, name: "SI 192x256 + SI 64x256 taps x oversampling".to_string(), cfgs: vec![
             Cfg::sinc(Kind::SI, 1.2, 1.0, 64, 192, 256, Interp::Linear, Kernel::Dispatch),
             Cfg::sinc(Kind::SI, 1.2, 1.0, 64, 64, 256, Interp::Linear, Kernel::Dispatch),
         ] },
-        Mix { partial: false, name: "SO 320x256 Hann + SI 64x256 Hann2".to_string(), cfgs: vec![
+        Mix { hostile: false, partial: false, name: "SO 320x256 Hann + SI 64x256 Hann2".to_string(), cfgs: vec![
             { let mut c = Cfg::sinc(Kind::SO, 0.8, 1.0, 64, 320, 256, Interp::Cubic, Kernel::Dispatch); c.window = rubato::WindowFunction::Hann; c },
             { let mut c = Cfg::sinc(Kind::SI, 0.8, 1.0, 64, 64, 256, Interp::Cubic, Kernel::Dispatch); c.window = rubato::WindowFunction::Hann2; c },
         ] },
-        Mix { partial: false, name: "XX 49152-point block + SI 64x256 (BlackmanHarris2 windows)".to_string(), cfgs: vec![
+        Mix { hostile: false, partial: false, name: "XX 49152-point block + SI 64x256 (BlackmanHarris2 windows)".to_string(), cfgs: vec![
             Cfg::fft(Kind::XX, 3, 2, 49152, 1),
             Cfg::sinc(Kind::SI, 1.2, 1.0, 64, 64, 256, Interp::Nearest, Kernel::Dispatch),
         ] },
         // parameters that differ only slightly (a cache keyed on rounded floats would collide)
-        Mix { partial: false, name: "SI+SI cutoffs 3e-5 apart".to_string(), cfgs: vec![si.clone(), { let mut c = si.clone(); c.f_cutoff += 3.0e-5; c }] },
-        Mix { partial: false, name: "SI+SO downsampling, ratios 5e-5 apart".to_string(), cfgs: vec![{ let mut c = si.clone(); c.ratio = 0.91875; c }, { let mut c = so.clone(); c.ratio = 0.9187; c }] },
+        Mix { hostile: false, partial: false, name: "SI+SI cutoffs 3e-5 apart".to_string(), cfgs: vec![si.clone(), { let mut c = si.clone(); c.f_cutoff += 3.0e-5; c }] },
+        Mix { hostile: false, partial: false, name: "SI+SO downsampling, ratios 5e-5 apart".to_string(), cfgs: vec![{ let mut c = si.clone(); c.ratio = 0.91875; c }, { let mut c = so.clone(); c.ratio = 0.9187; c }] },
         // same type and ratios, different chunk sizes (state keyed without the chunk size would collide)
-        Mix { partial: false, name: "FI+FI chunk 16 and 24".to_string(), cfgs: vec![fi.clone(), { let mut c = fi.clone(); c.chunk = 24; c }] },
-        Mix { partial: false, name: "FO+FO chunk 16 and 9".to_string(), cfgs: vec![fo.clone(), { let mut c = fo.clone(); c.chunk = 9; c }] },
-        Mix { partial: false, name: "SI+SI chunk 24 and 7".to_string(), cfgs: vec![si.clone(), { let mut c = si.clone(); c.chunk = 7; c }] },
-        Mix { partial: false, name: "SO+SO chunk 24 and 7".to_string(), cfgs: vec![so.clone(), { let mut c = so.clone(); c.chunk = 7; c }] },
+        Mix { hostile: false, partial: false, name: "FI+FI chunk 16 and 24".to_string(), cfgs: vec![fi.clone(), { let mut c = fi.clone(); c.chunk = 24; c }] },
+        Mix { hostile: false, partial: false, name: "FO+FO chunk 16 and 9".to_string(), cfgs: vec![fo.clone(), { let mut c = fo.clone(); c.chunk = 9; c }] },
+        Mix { hostile: false, partial: false, name: "SI+SI chunk 24 and 7".to_string(), cfgs: vec![si.clone(), { let mut c = si.clone(); c.chunk = 7; c }] },
+        Mix { hostile: false, partial: false, name: "SO+SO chunk 24 and 7".to_string(), cfgs: vec![so.clone(), { let mut c = so.clone(); c.chunk = 7; c }] },
         // end-of-stream calls of instances with different channel counts (a shared scratch for the
         // padded input would be cleared for the caller's channels only)
-        Mix { partial: true, name: "FI 2ch + FI 1ch, partial calls".to_string(), cfgs: vec![fi.clone(), fi.clone().with_channels(1)] },
-        Mix { partial: true, name: "FI 2ch + SO 3ch, partial calls".to_string(), cfgs: vec![fi.clone(), so.clone().with_channels(3)] },
-        Mix { partial: true, name: "XI 2ch + XO 1ch, partial calls".to_string(), cfgs: vec![Cfg::fft(Kind::XI, 2, 3, 32, 2).with_channels(2), Cfg::fft(Kind::XO, 2, 3, 48, 2).with_channels(1)] },
-        Mix { partial: false, name: "FO+FO ratios 3e-5 apart".to_string(), cfgs: vec![fo.clone(), { let mut c = fo.clone(); c.ratio += 3.0e-5; c }] },
+        Mix { hostile: false, partial: true, name: "FI 2ch + FI 1ch, partial calls".to_string(), cfgs: vec![fi.clone(), fi.clone().with_channels(1)] },
+        Mix { hostile: false, partial: true, name: "FI 2ch + SO 3ch, partial calls".to_string(), cfgs: vec![fi.clone(), so.clone().with_channels(3)] },
+        Mix { hostile: false, partial: true, name: "XI 2ch + XO 1ch, partial calls".to_string(), cfgs: vec![Cfg::fft(Kind::XI, 2, 3, 32, 2).with_channels(2), Cfg::fft(Kind::XO, 2, 3, 48, 2).with_channels(1)] },
+        // rejected calls of one instance, subnormal-level signals in all: whatever an error path
+        // leaves behind on the thread (floating-point control bits, half-updated scratch) shows
+        // in the instance that runs there next
+        Mix { hostile: true, partial: false, name: "SI+FI rejected calls, subnormal signal".to_string(), cfgs: vec![si.clone(), fi.clone()] },
+        Mix { hostile: true, partial: false, name: "SO+FO rejected calls, subnormal signal".to_string(), cfgs: vec![so.clone(), fo.clone()] },
+        Mix { hostile: true, partial: false, name: "SI+XI rejected calls, subnormal signal".to_string(), cfgs: vec![si.clone(), Cfg::fft(Kind::XI, 2, 3, 32, 2).with_channels(2)] },
+        Mix { hostile: true, partial: false, name: "FI+SO+XX rejected calls, subnormal signal".to_string(), cfgs: vec![fi.clone(), so.clone(), Cfg::fft(Kind::XX, 2, 3, 16, 1).with_channels(2)] },
+        Mix { hostile: true, partial: false, name: "XO+SI rejected calls, subnormal signal".to_string(), cfgs: vec![Cfg::fft(Kind::XO, 2, 3, 48, 2).with_channels(2), si.clone()] },
+        Mix { hostile: false, partial: false, name: "FO+FO ratios 3e-5 apart".to_string(), cfgs: vec![fo.clone(), { let mut c = fo.clone(); c.ratio += 3.0e-5; c }] },
     ];
     v.extend(pool_pairs());
     v
@@ -245,7 +262,7 @@ fn pool_pairs() -> Vec<Mix> {
                 if partial && (p[i].channels == p[j].channels && p[i].kind == p[j].kind) {
                     continue;
                 }
-                v.push(Mix { partial, name: format!("pool {}{} + {}", if partial { "(end of stream) " } else { "" }, p[i].short(), p[j].short()), cfgs: vec![p[i].clone(), p[j].clone()] });
+                v.push(Mix { hostile: false, partial, name: format!("pool {}{} + {}", if partial { "(end of stream) " } else { "" }, p[i].short(), p[j].short()), cfgs: vec![p[i].clone(), p[j].clone()] });
             }
         }
     }
@@ -325,8 +342,8 @@ fn run_schedules(mix: &Mix, item: &Item, journal: Option<&JournalFile>) -> Resul
     // earlier ones left behind in the process must not show
     for (i, cfg) in mix.cfgs.iter().enumerate() {
         let cfg = cfg.clone();
-        let partial = mix.partial;
-        let outs = std::thread::spawn(move || solo(&cfg, i, partial))
+        let (partial, hostile) = (mix.partial, mix.hostile);
+        let outs = std::thread::spawn(move || solo(&cfg, i, partial, hostile))
             .join()
             .map_err(|_| "reference thread panicked".to_string())??;
         if outs != reference[i] {
@@ -382,7 +399,7 @@ fn run_schedules(mix: &Mix, item: &Item, journal: Option<&JournalFile>) -> Resul
                 next_step[inst] += 1;
                 transitions += 1;
                 if s == 0 {
-                    txs[w].send(Job::Construct(mix.cfgs[inst].clone(), inst)).map_err(|e| e.to_string())?;
+                    txs[w].send(Job::Construct(mix.cfgs[inst].clone(), inst, mix.hostile)).map_err(|e| e.to_string())?;
                     match done_rx.recv().map_err(|e| e.to_string())? {
                         Done::Built(Ok(r)) => objs[inst] = Some(r),
                         Done::Built(Err(e)) => return Err(format!("construction failed: {}", e)),
@@ -390,7 +407,7 @@ fn run_schedules(mix: &Mix, item: &Item, journal: Option<&JournalFile>) -> Resul
                     }
                 } else {
                     let r = objs[inst].take().ok_or("object missing")?;
-                    let ops = script(&mix.cfgs[inst], mix.partial)[s - 1].clone();
+                    let ops = script(&mix.cfgs[inst], mix.partial, mix.hostile)[s - 1].clone();
                     txs[w].send(Job::Step(r, ops)).map_err(|e| e.to_string())?;
                     match done_rx.recv().map_err(|e| e.to_string())? {
                         Done::Stepped(r, out) => {
@@ -415,7 +432,7 @@ fn run_schedules(mix: &Mix, item: &Item, journal: Option<&JournalFile>) -> Resul
             schedules += 1;
             outcome_set.insert(format!("{}:{}:{}", mix.name, if ok { "same" } else { "DIFFERENT" }, order.iter().map(|x| x.to_string()).collect::<String>()));
             if sample.is_none() {
-                sample = Some(json!({"mix": mix.name, "interleaving": order, "worker_of_step": (0..steps).map(worker_of).collect::<Vec<_>>(), "scripts": mix.cfgs.iter().map(|c| format!("construct {}; {}", c.short(), script(c, mix.partial).iter().map(|s| crate::ops::history_text(s)).collect::<Vec<_>>().join("; "))).collect::<Vec<_>>()}));
+                sample = Some(json!({"mix": mix.name, "interleaving": order, "worker_of_step": (0..steps).map(worker_of).collect::<Vec<_>>(), "scripts": mix.cfgs.iter().map(|c| format!("construct {}; {}", c.short(), script(c, mix.partial, mix.hostile).iter().map(|s| crate::ops::history_text(s)).collect::<Vec<_>>().join("; "))).collect::<Vec<_>>()}));
             }
         }
         for tx in &txs {
@@ -437,13 +454,13 @@ fn run_schedules(mix: &Mix, item: &Item, journal: Option<&JournalFile>) -> Resul
                     let cfg = mix.cfgs[t % k].clone();
                     let inst = t % k;
                     let b = barrier.clone();
-                    let partial = mix.partial;
+                    let (partial, hostile) = (mix.partial, mix.hostile);
                     std::thread::spawn(move || -> Result<Vec<StepOut>, String> {
                         crate::run::install_panic_hook();
                         b.wait();
-                        let mut r = build(&cfg, inst)?;
+                        let mut r = build(&cfg, inst, hostile)?;
                         let mut outs = Vec::new();
-                        for ops in script(&cfg, partial) {
+                        for ops in script(&cfg, partial, hostile) {
                             outs.push(exec(&mut r, &ops));
                         }
                         Ok(outs)
